@@ -19,6 +19,7 @@ import (
 	"encoding/json"
 	"errors"
 	"fmt"
+	"math"
 	"math/rand"
 	"os"
 	"strings"
@@ -35,11 +36,21 @@ import (
 // cases
 
 // SleepCase is one SleepContext call made at virtual instant 0. Negative Deadline / CancelAt mean
-// "none"; CancelAt == 0 is a context that is already cancelled when the call is made.
+// "none"; CancelAt == 0 is a context that is already cancelled when the call is made; DeadlineAgo > 0
+// is a context whose deadline passed that long before the call (Deadline is ignored then).
 type SleepCase struct {
-	D        int64 `json:"d"`
-	Deadline int64 `json:"deadline"`
-	CancelAt int64 `json:"cancel_at"`
+	D           int64 `json:"d"`
+	Deadline    int64 `json:"deadline"`
+	CancelAt    int64 `json:"cancel_at"`
+	DeadlineAgo int64 `json:"deadline_ago,omitempty"`
+}
+
+// deadline returns the context's deadline relative to the instant of the call.
+func (c SleepCase) deadline() (int64, bool) {
+	if c.DeadlineAgo > 0 {
+		return -c.DeadlineAgo, true
+	}
+	return c.Deadline, c.Deadline >= 0
 }
 
 // TStep is one step of a ticker script.
@@ -94,11 +105,14 @@ func runSleep(t *testing.T, c SleepCase) sleepObs {
 		var cancels []context.CancelFunc
 		o.ctxAt = -1
 		quit := make(chan struct{})
-		if c.Deadline >= 0 {
+		if dl, ok := c.deadline(); ok {
 			var cf context.CancelFunc
-			ctx, cf = context.WithDeadline(ctx, start.Add(time.Duration(c.Deadline)))
+			ctx, cf = context.WithDeadline(ctx, start.Add(time.Duration(dl)))
 			cancels = append(cancels, cf)
-			o.ctxAt = c.Deadline
+			o.ctxAt = dl
+			if dl < 0 {
+				o.ctxAt = 0 // Done is closed when the call is made
+			}
 		}
 		if c.CancelAt >= 0 {
 			var cf context.CancelFunc
@@ -154,32 +168,37 @@ func runSleep(t *testing.T, c SleepCase) sleepObs {
 
 // monitorSleep encodes the clauses of the property text.
 func monitorSleep(c SleepCase, o sleepObs) *fail {
+	dl, hasDl := c.deadline()
 	rel := "none"
-	if c.Deadline >= 0 && c.Deadline < c.D {
+	switch {
+	case hasDl && dl < 0:
+		rel = "passed"
+	case hasDl && dl < c.D:
 		rel = "closer-than-d"
-	} else if c.Deadline >= 0 {
+	case hasDl:
 		rel = "not-closer-than-d"
 	}
-	p := map[string]interface{}{"deadline": rel, "cancelled": c.CancelAt >= 0, "d_positive": c.D > 0}
+	p := map[string]interface{}{"deadline": rel, "cancelled": c.CancelAt >= 0, "d_positive": c.D > 0, "d_zero": c.D == 0}
 	mk := func(kind, what string) *fail {
 		return &fail{kind, p, fmt.Sprintf("SleepContext(d=%s, deadline=%s, cancel at %s) returned %s after %s: %s",
-			dur(c.D), durOrNone(c.Deadline), durOrNone(c.CancelAt), o.res, dur(o.elapsed), what)}
+			dur(c.D), c.deadlineText(), durOrNone(c.CancelAt), o.res, dur(o.elapsed), what)}
 	}
 	if o.res == "panic" {
 		return mk("sleep-panic", "panicked")
 	}
-	preDone := o.ctxAt == 0 || (c.Deadline >= 0 && c.Deadline == 0)
+	preDone := o.ctxAt == 0
 	if c.D <= 0 {
-		// "at once when d <= 0" (what an already-ended context does here is left open)
+		// "returns nil ... at once when d <= 0": whatever the context looks like (none, live, deadline
+		// passed, already cancelled) - the text makes no exception
+		if o.res != "nil" {
+			return mk("sleep-nonpositive-not-nil", "d <= 0 must return nil")
+		}
 		if o.elapsed != 0 {
 			return mk("sleep-nonpositive-not-immediate", "d <= 0 must return at once")
 		}
-		if o.res != "nil" && !(preDone && o.res == "ctxerr") {
-			return mk("sleep-nonpositive-not-nil", "d <= 0 must return nil")
-		}
 		return nil
 	}
-	tooSoon := c.Deadline >= 0 && c.Deadline < c.D
+	tooSoon := hasDl && dl < c.D
 	// "returns nil only after at least d has elapsed"
 	if o.res == "nil" && o.elapsed < c.D {
 		return mk("sleep-nil-before-d", "nil although less than d elapsed")
@@ -213,10 +232,21 @@ func monitorSleep(c SleepCase, o sleepObs) *fail {
 	return nil
 }
 
+func (c SleepCase) deadlineText() string {
+	dl, ok := c.deadline()
+	switch {
+	case !ok:
+		return "none"
+	case dl < 0:
+		return dur(-dl) + " ago"
+	}
+	return dur(dl)
+}
+
 func sleepLine(c SleepCase, o sleepObs) string {
 	dl, ca := "-", "-"
-	if c.Deadline >= 0 {
-		dl = fmt.Sprint(c.Deadline)
+	if d, ok := c.deadline(); ok {
+		dl = fmt.Sprint(d)
 	}
 	if o.ctxAt >= 0 {
 		ca = fmt.Sprint(o.ctxAt)
@@ -388,7 +418,7 @@ const (
 )
 
 func genSleep(r *vlib.Rand) SleepCase {
-	ds := []int64{-7, -1, 0, 1, 2, 3, 5, 10, 1000, ms, 20 * ms, sec, hour}
+	ds := []int64{math.MinInt64, -hour, -7, -1, 0, 0, 1, 2, 3, 5, 10, 1000, ms, 20 * ms, sec, hour}
 	d := ds[r.Intn(len(ds))]
 	c := SleepCase{D: d, Deadline: -1, CancelAt: -1}
 	base := d
@@ -416,7 +446,8 @@ func genSleep(r *vlib.Rand) SleepCase {
 		}
 		return int64(r.Intn(int(min64(2*base, 1<<30)) + 1))
 	}
-	switch r.Intn(5) {
+	ago := func() int64 { return []int64{1, 2, base, sec, hour}[r.Intn(5)] }
+	switch r.Intn(7) {
 	case 0: // no context events
 	case 1:
 		c.Deadline = near()
@@ -429,8 +460,34 @@ func genSleep(r *vlib.Rand) SleepCase {
 		if r.Bool() {
 			c.Deadline = near()
 		}
+	case 5: // the deadline has already passed
+		c.DeadlineAgo = ago()
+	case 6: // ... and the context was cancelled as well (before or, pointlessly, later)
+		c.DeadlineAgo = ago()
+		c.CancelAt = []int64{0, 0, 1, base}[r.Intn(4)]
 	}
 	return c
+}
+
+// nonPositiveShapes: the context shapes crossed with d <= 0 (D is filled in by the caller).
+type namedSleep struct {
+	name string
+	c    SleepCase
+}
+
+func nonPositiveShapes() []namedSleep {
+	return []namedSleep{
+		{"none", SleepCase{Deadline: -1, CancelAt: -1}},
+		{"live-far-deadline", SleepCase{Deadline: hour, CancelAt: -1}},
+		{"live-near-deadline", SleepCase{Deadline: 1, CancelAt: -1}},
+		{"live-cancelled-later", SleepCase{Deadline: -1, CancelAt: 5}},
+		{"deadline-now", SleepCase{Deadline: 0, CancelAt: -1}},
+		{"deadline-passed-1ns", SleepCase{Deadline: -1, CancelAt: -1, DeadlineAgo: 1}},
+		{"deadline-passed-1s", SleepCase{Deadline: -1, CancelAt: -1, DeadlineAgo: sec}},
+		{"cancelled", SleepCase{Deadline: -1, CancelAt: 0}},
+		{"cancelled-far-deadline", SleepCase{Deadline: hour, CancelAt: 0}},
+		{"cancelled-deadline-passed", SleepCase{Deadline: -1, CancelAt: 0, DeadlineAgo: sec}},
+	}
 }
 
 func min64(a, b int64) int64 {
@@ -679,10 +736,19 @@ func (x *runner) do(c Case, tag string) {
 	x.res.Case(key, nontrivial, map[string]interface{}{"case": c, "trace": lines})
 	if f != nil {
 		x.res.Count("monitor-failure." + f.kind)
+		c0 := c
 		c = x.shrink(c, f.kind)
-		f2, _, _ := x.evalCase(c)
-		if f2 == nil || f2.kind != f.kind {
-			f2 = f
+		f2 := f
+		if c.String() != c0.String() {
+			f2 = nil
+			for i := 0; i < 12 && f2 == nil; i++ {
+				if g, _, _ := x.evalCase(c); g != nil && g.kind == f.kind {
+					f2 = g
+				}
+			}
+			if f2 == nil { // did not reproduce: report the case as it was found
+				c, f2 = c0, f
+			}
 		}
 		x.res.Fail(vlib.Failure{Source: "monitor", Kind: f2.kind, Params: f2.params, What: f2.what, Case: c})
 	}
@@ -695,8 +761,68 @@ func (x *runner) do(c Case, tag string) {
 	}
 }
 
-// shrink minimises a failing ticker script (sleep cases are single calls already).
+// stillFails: the case shows the failure kind in one of a few runs (which ready select arm wins, and
+// the ticker's rand values, vary between runs).
+func (x *runner) stillFails(c Case, kind string, tries int) bool {
+	for i := 0; i < tries; i++ {
+		if f, _, _ := x.evalCase(c); f != nil && f.kind == kind {
+			return true
+		}
+	}
+	return false
+}
+
+// shrinkSleep simplifies the context of a failing SleepContext call: no cancellation, no deadline, a
+// deadline 1ns ago instead of longer ago, d nearer to zero.
+func (x *runner) shrinkSleep(c Case, kind string) Case {
+	try := func(mod func(s *SleepCase)) {
+		s := *c.Sleep
+		mod(&s)
+		if s == *c.Sleep {
+			return
+		}
+		cc := c
+		cc.Sleep = &s
+		if x.stillFails(cc, kind, 12) {
+			c = cc
+		}
+	}
+	try(func(s *SleepCase) { s.CancelAt = -1 })
+	try(func(s *SleepCase) { s.Deadline, s.DeadlineAgo = -1, 0 })
+	try(func(s *SleepCase) {
+		if s.CancelAt > 0 {
+			s.CancelAt = 0
+		}
+	})
+	try(func(s *SleepCase) {
+		if s.DeadlineAgo > 1 {
+			s.DeadlineAgo = 1
+		}
+	})
+	try(func(s *SleepCase) {
+		if s.Deadline > 0 {
+			s.Deadline = 0
+		}
+	})
+	for _, d := range []int64{0, -1, 1, 2, 3} {
+		d := d
+		if (c.Sleep.D < 0 && d >= c.Sleep.D && d <= 0) || (c.Sleep.D > 0 && d > 0 && d < c.Sleep.D) {
+			before := c.Sleep.D
+			try(func(s *SleepCase) { s.D = d })
+			if c.Sleep.D != before {
+				break
+			}
+		}
+	}
+	return c
+}
+
+// shrink minimises a failing case: ticker scripts by ddmin over the steps, sleep calls by simplifying
+// the context.
 func (x *runner) shrink(c Case, kind string) Case {
+	if c.Kind == "sleep" && c.Sleep != nil {
+		return x.shrinkSleep(c, kind)
+	}
 	if c.Kind != "ticker" || len(c.Steps) < 2 {
 		return c
 	}
@@ -763,7 +889,7 @@ func TestVerif(t *testing.T) {
 		}
 		x := &runner{t: t, env: env, res: vlib.NewResult("C20", "")}
 		bad := false
-		for i := 0; i < 5 && !bad; i++ {
+		for i := 0; i < 20 && !bad; i++ {
 			f, lines, _ := x.evalCase(c)
 			fmt.Printf("replay %s\n  trace: %v\n", c, lines)
 			if f != nil {
@@ -805,12 +931,33 @@ func TestVerif(t *testing.T) {
 	// the context shapes named by the property, at three scales
 	for _, d := range []int64{3, ms, hour} {
 		for _, c := range []SleepCase{
-			{d, -1, -1}, {d, 1000 * d, -1}, {d, hour + d, -1}, {d, d / 2, -1}, {d, d - 1, -1}, {d, d, -1}, {d, d + 1, -1},
-			{d, -1, 0}, {d, -1, d / 2}, {d, -1, d - 1}, {d, -1, d}, {d, -1, d + 1}, {d, 10 * d, d / 2}, {d, d / 3, 0},
-			{0, -1, -1}, {-d, -1, -1}, {0, 5, -1}, {-d, -1, 0}, {0, -1, 0},
+			{D: d, Deadline: -1, CancelAt: -1}, {D: d, Deadline: 1000 * d, CancelAt: -1}, {D: d, Deadline: hour + d, CancelAt: -1},
+			{D: d, Deadline: d / 2, CancelAt: -1}, {D: d, Deadline: d - 1, CancelAt: -1}, {D: d, Deadline: d, CancelAt: -1}, {D: d, Deadline: d + 1, CancelAt: -1},
+			{D: d, Deadline: -1, CancelAt: 0}, {D: d, Deadline: -1, CancelAt: d / 2}, {D: d, Deadline: -1, CancelAt: d - 1}, {D: d, Deadline: -1, CancelAt: d},
+			{D: d, Deadline: -1, CancelAt: d + 1}, {D: d, Deadline: 10 * d, CancelAt: d / 2}, {D: d, Deadline: d / 3, CancelAt: 0},
+			// deadline exactly now / already passed (alone, and on a cancelled context)
+			{D: d, Deadline: 0, CancelAt: -1}, {D: d, Deadline: -1, CancelAt: -1, DeadlineAgo: 1}, {D: d, Deadline: -1, CancelAt: -1, DeadlineAgo: d},
+			{D: d, Deadline: -1, CancelAt: 0, DeadlineAgo: hour}, {D: d, Deadline: 10 * d, CancelAt: 0},
 		} {
 			cc := c
 			x.do(Case{Kind: "sleep", Sleep: &cc}, "sleep-shapes")
+		}
+	}
+	// "at once when d <= 0": d == 0 and d < 0 crossed with every context shape. With an ended context
+	// the outcome of a wrong implementation can depend on which ready arm a select picks, so every
+	// combination is run several times.
+	for rep := 0; rep < 6; rep++ {
+		for _, d := range []int64{0, -1, -sec, math.MinInt64} {
+			for _, sh := range nonPositiveShapes() {
+				cc := sh.c
+				cc.D = d
+				x.do(Case{Kind: "sleep", Sleep: &cc}, "sleep-nonpositive")
+				dn := "neg"
+				if d == 0 {
+					dn = "zero"
+				}
+				res.Count("sleep-d-" + dn + "-ctx-" + sh.name)
+			}
 		}
 	}
 	// (d, jitter) grid incl. jitter = 0 and jitter = d-1, Stop / Reset at every offset after a
